@@ -32,7 +32,7 @@
    each call, a Close counter on response bodies, and a delay injected at every
    single yield point of the duplex call (every pair in the thorough tier). *)
 From Coq Require Import List NArith Bool.
-From Connect Require Import Bytes Generated Duplex Call Progress.
+From Connect Require Import Bytes Generated Plumbing Duplex Call Progress.
 Import ListNotations.
 
 Theorem response_published_before_read : forall es b,
@@ -167,6 +167,12 @@ Theorem duplex_shared_state_synchronised :
   duplex_other_channels_closed_through_once = true.
 Proof. exact source_synchronisation_facts. Qed.
 Print Assumptions duplex_shared_state_synchronised.
+
+(* the body the call reads, drains and closes is never the raw connection of a 101 response
+   (which no context governs): it is replaced before the response is published *)
+Theorem upgraded_connection_is_never_the_response_body : duplex_101_body_replaced = true.
+Proof. exact Plumbing.switching_protocols_body_replaced. Qed.
+Print Assumptions upgraded_connection_is_never_the_response_body.
 
 (* non-vacuity: a bidi exchange in which the handler fails after one message *)
 Example a_call :
